@@ -1,8 +1,84 @@
 import CnlDriver.CS
-/-! `C09` driver table (stub). -/
+import CnlDriver.FloatIO
+import CnlModel.RoundCvt
+/-! `C09` table: narrowing conversions under a rounding tag. -/
 namespace Cnl.Drv
 open Cnl
 
-def checkC09 (_toks : List String) (_res : String) : Option Verdict := none
+/-- the integer the mode selects from the exact rational `q` -/
+def roundQ (mode : RdMode) (q : Rat) : Int :=
+  match mode with
+  | .ninf => q.floor
+  | .nat => if q < 0 then -((-q).floor) else q.floor
+  | .tpi => (q + (1/2 : Rat)).floor
+  | .nrst => if q < 0 then -((-q + (1/2 : Rat)).floor) else (q + (1/2 : Rat)).floor
+
+def pow2Rat (e : Int) : Rat := if e ≥ 0 then ((2 : Rat) ^ e.toNat) else 1 / ((2 : Rat) ^ (-e).toNat)
+
+/-- is the floating-point sum `x + y` in format `f` inexact (rounded)? -/
+def addInexact (f : Fmt) (x y : FVal) : Bool :=
+  match x.toRat?, y.toRat?, (f.add x y).toRat? with
+  | some a, some b, some c => a + b != c
+  | _, _, _ => false
+
+def isIntegerQ (q : Rat) : Bool := (q.floor : Rat) == q
+
+def checkC09 (toks : List String) (res : String) : Option Verdict :=
+  match toks with
+  | ["f2i", mode, fm, dt, x] => do
+    let mode ← parseRdMode mode; let f ← FloatIO.parseFmt fm; let D ← parseIntTy dt; let x ← Fmt.ofHex? f x
+    let m := RoundCvt.floatToInt mode f D x
+    let spec : Option Bool := match x.toRat? with
+      | none => none
+      | some q => let w := roundQ mode q
+                  if D.inRange w then some (res == s!"{D.toString}:{w}") else none
+    let frac : String := match x.toRat? with
+      | some q => let d := q - (q.floor : Rat); if d == (1/2 : Rat) then "/tie" else if d == 0 then "/int" else ""
+      | none => "/nonfinite"
+    let halfF := f.ofDyadic false 1 (-1)
+    let halfL := x87ext.ofDyadic false 1 (-1)
+    let xl := x87ext.cvt x
+    let cls :=
+      if mode == .tpi && addInexact f x halfF then "C09.ties_up_float_bias_in_source_precision"
+      else if mode == .nrst && addInexact x87ext xl (if fCmp .ge x (f.ofInt 0) then halfL else halfL.neg) then "C09.nearest_long_double_bias_rounds"
+      else ""
+    some { model := showRes (fun v => s!"{D.toString}:{v}") m, spec := spec, cls := cls,
+           branch := s!"f2i/{toks[1]!}/{fm}{frac}", nontrivial := spec.isSome }
+  | ["s2s", mode, st, es, dt, ed, v] => do
+    let mode ← parseRdMode mode; let S ← parseIntTy st; let es ← es.toInt?; let D ← parseIntTy dt; let ed ← ed.toInt?; let v ← v.toInt?
+    let m := RoundCvt.scaledToScaled mode S es D ed v
+    let q : Rat := (v : Rat) * pow2Rat (es - ed)
+    let w := roundQ mode q
+    -- the value must be the rounded one whenever the destination representation can hold it
+    -- (the type of the returned object is compared with the model, not judged by the property)
+    let spec : Option Bool := if D.inRange w then some ((res.splitOn ":").getLast? == some (toString w)) else none
+    -- the bias `from ± half` is computed in the promoted source type and overflows near its limits
+    let T := promote S
+    let h : Int := (2 : Int)^((ed - es).toNat - 1)
+    let biased : Int := if mode == .nrst && v < 0 then v - h else v + h
+    let cls :=
+      if (mode == .nrst || mode == .tpi) && ed > es && (ed - es).toNat ≥ S.digits then "C09.scaled_half_unit_exceeds_source_rep"
+      else if (mode == .nrst || mode == .tpi) && ed > es && !T.inRange biased then "C09.scaled_bias_overflow_near_limits" else ""
+    some { model := showRes (fun r => s!"sc({r.1.toString},{ed},2):{r.2}") m, spec := spec, cls := cls,
+           branch := s!"s2s/{toks[1]!}" ++ (if ed > es then "/narrow" else "/exact"), nontrivial := spec.isSome }
+  | ["f2s", mode, fm, dt, ed, x] => do
+    let mode ← parseRdMode mode; let f ← FloatIO.parseFmt fm; let D ← parseIntTy dt; let ed ← ed.toInt?; let x ← Fmt.ofHex? f x
+    let m := RoundCvt.floatToScaled mode f D ed x
+    let spec : Option Bool := match x.toRat? with
+      | none => none
+      | some q => let w := roundQ mode (q * pow2Rat (-ed))
+                  if D.inRange w then some (res == s!"sc({D.toString},{ed},2):{w}") else none
+    let halfS := ScaledFloat.powerValueF f 2 (ed - 1)
+    let cls := match mode, x.toRat? with
+      | .ninf, some q => if q < 0 && !isIntegerQ (q * pow2Rat (-ed)) then "C09.neg_inf_float_to_scaled_truncates" else ""
+      | .tpi, some q =>
+        if addInexact f x halfS then "C09.float_to_scaled_bias_rounds"
+        else if q * pow2Rat (-ed) + (1/2 : Rat) < 0 && !isIntegerQ (q * pow2Rat (-ed) + (1/2 : Rat)) then "C09.ties_up_float_to_scaled_truncates_after_bias" else ""
+      | .nrst, some _ =>
+        if addInexact f x (if fCmp .ge x (f.ofInt 0) then halfS else halfS.neg) then "C09.float_to_scaled_bias_rounds" else ""
+      | _, _ => ""
+    some { model := showRes (fun r => s!"sc({D.toString},{ed},2):{r}") m, spec := spec, cls := cls,
+           branch := s!"f2s/{toks[1]!}/{fm}", nontrivial := spec.isSome }
+  | _ => none
 
 end Cnl.Drv
